@@ -20,8 +20,8 @@ import re
 import vlib
 
 UNIT_DEPTH = {"quick": 3, "thorough": 4}
-UNIT_SIM = {"quick": 1500, "thorough": 20000}
-CTL_SIM = {"quick": 150, "thorough": 2500}
+UNIT_SIM = {"quick": 1500, "thorough": 6000}
+CTL_SIM = {"quick": 150, "thorough": 1000}
 
 # closed-model runs: (cfg, liveness?)
 MC = {
